@@ -811,8 +811,11 @@ func run(c *lib.Ctx) {
 	if only < 0 || (only >= 4000000 && only < 5000000) {
 		runRace(c, c.N(2, 6), maxN)
 	}
-	if only < 0 || only >= 5000000 {
+	if only < 0 || (only >= 5000000 && only < 6000000) {
 		runNode(c, c.N(2, 12), c.N(6, 12))
+	}
+	if only < 0 || only >= 6000000 {
+		runLargeRoots(c, c.N(40, 600))
 	}
 	c.RequireEvents("root_computations", 5000)
 	c.RequireEvents("parallel_path", 2000)
@@ -822,6 +825,49 @@ func run(c *lib.Ctx) {
 	c.RequireEvents("tx_proofs", 5000)
 	c.RequireEvents("race_root_computations", 100)
 	c.RequireEvents("node_two_layer_proofs", 20)
+}
+
+// runLargeRoots: leaf counts far above the dense range with FEW workers, where the chunk size hits its cap (256) and the
+// chunk level and the chunk size part ways: a sparse PRNG-determined sample, every worker count 1..8 and 16.
+func runLargeRoots(c *lib.Ctx, cases int) {
+	defer merkle.VerifSetWorkers(0)
+	for k := 0; k < cases; k++ {
+		idx := 6000000 + k
+		if c.Skip(idx) {
+			continue
+		}
+		r := c.CaseRng("large", k)
+		n := r.Range(601, 24000)
+		if k%4 == 0 {
+			n = (r.Range(3, 90) << 8) + r.Range(1, 255) // never a multiple of the chunk cap
+		}
+		leaves := make([][]byte, n)
+		for i := range leaves {
+			h := sha256.Sum256([]byte(fmt.Sprintf("large-%d-%d-%d", c.Seed, k, i)))
+			leaves[i] = h[:]
+		}
+		ref := refRoot(leaves)
+		for _, w := range []int{1, 2, 3, 4, 5, 6, 7, 8, 16} {
+			merkle.VerifSetWorkers(w)
+			in := cp(leaves)
+			got := merkle.GetMerkleRoot(in)
+			step := measuredStep(leaves, in)
+			c.Count("root_computations", 1)
+			c.Count("large_root_computations", 1)
+			if step < n {
+				c.Count("parallel_path", 1)
+				if n%step != 0 {
+					c.Count("parallel_padded_last_chunk", 1)
+				}
+				c.Seen("chunkings", fmt.Sprintf("%d/%d", n, step))
+			}
+			c.Case(fmt.Sprintf("n%d/step%d", n, step), step < n, nil)
+			if !bytes.Equal(got, ref) {
+				c.Violation(idx, "root-mismatch/parallel", map[string]any{"n": n, "workers": w, "measured_chunk": step},
+					"GetMerkleRoot with %d workers over %d leaves (measured chunk %d) = %x, sequential/reference root %x", w, n, step, got, ref)
+			}
+		}
+	}
 }
 
 func init() { lib.RegisterChild("race", raceChild) }
